@@ -6,26 +6,29 @@ EXTENDS Naturals, Integers, Sequences, FiniteSets, TLC, Json, IOUtils
 Core == INSTANCE MonCore
 Work == INSTANCE MonWork
 Sig == INSTANCE MonSig
+Res == INSTANCE MonRes
 
-VARIABLES l, mon, monw, mons, sid
-tvars == <<l, mon, monw, mons, sid>>
+VARIABLES l, mon, monw, mons, monr, sid
+tvars == <<l, mon, monw, mons, monr, sid>>
 
 Log == ndJsonDeserialize(IOEnv.TRACE)
 N == Len(Log)
 
-TInit == l = 1 /\ mon = Core!MonInit /\ monw = Work!WInit /\ mons = Sig!SInit /\ sid = "none"
+TInit == l = 1 /\ mon = Core!MonInit /\ monw = Work!WInit /\ mons = Sig!SInit /\ monr = Res!RInit /\ sid = "none"
 
 TNext ==
   /\ l <= N
   /\ l' = l + 1
   /\ LET e == Log[l] IN
      IF e.e = "Reset"
-     THEN mon' = Core!MonInit /\ monw' = Work!WInit /\ mons' = Sig!SInit /\ sid' = e.id
+     THEN mon' = Core!MonInit /\ monw' = Work!WInit /\ mons' = Sig!SInit /\ monr' = Res!RInit /\ sid' = e.id
      ELSE /\ mon' = Core!MonStep(mon, e)
           /\ monw' = Work!WStep(monw, e)
           /\ mons' = Sig!SStep(mons, e)
+          /\ monr' = Res!RStep(monr, e)
           /\ sid' = sid
-          /\ LET nv == (mon'.viols \cup monw'.viols \cup mons'.viols) \ (mon.viols \cup monw.viols \cup mons.viols)
+          /\ LET nv == (mon'.viols \cup monw'.viols \cup mons'.viols \cup monr'.viols)
+                       \ (mon.viols \cup monw.viols \cup mons.viols \cup monr.viols)
              IN nv # {} => PrintT("VIOLAT " \o ToJson([id |-> sid, line |-> l, rules |-> nv]))
           /\ (e.e = "End") =>
                LET (* C13 / C19: once a pool was released (a popen request closed)
@@ -40,8 +43,8 @@ TNext ==
                         (IF idle /\ anyClosed THEN {"C19:leak"} ELSE {})
                    sx == (IF anyPut THEN {"C13:owner-held"} ELSE {}) \cup (IF anyClosed THEN {"C19:leak"} ELSE {})
                IN PrintT("VERDICT " \o ToJson([id |-> sid, why |-> e.why,
-                                             viols |-> mon'.viols \cup monw'.viols \cup mons'.viols \cup x,
-                                             seen |-> mon'.seen \cup monw'.seen \cup mons'.seen \cup sx]))
+                                             viols |-> mon'.viols \cup monw'.viols \cup mons'.viols \cup monr'.viols \cup x,
+                                             seen |-> mon'.seen \cup monw'.seen \cup mons'.seen \cup monr'.seen \cup sx]))
 
 TSpec == TInit /\ [][TNext]_tvars
 =============================================================================
